@@ -108,10 +108,7 @@ theorem trial_roundtrip (cfg : Cfg) (t : Trial) (h : TrialOk cfg t) :
           · have := hi (by simp [Trial.infeasible])
             simp at this
             simp [Trial.status, Trial.infeasible, stateOf, this]
-            first
-              | done
-              | (rw [← this]; cases cfg.infeasibleEndTime <;> simp)
-              | (rw [← this.2]; cases cfg.infeasibleEndTime <;> simp)
+            rw [← this]; cases cfg.infeasibleEndTime <;> simp
         | none =>
           have := hpost (by simp) rfl
           simp [Trial.status, Trial.infeasible, stateOf, this]
@@ -128,10 +125,7 @@ theorem trial_roundtrip (cfg : Cfg) (t : Trial) (h : TrialOk cfg t) :
           · have := hi (by simp [Trial.infeasible])
             simp at this
             simp [Trial.status, Trial.infeasible, stateOf, this]
-            first
-              | done
-              | (rw [← this]; cases cfg.infeasibleEndTime <;> simp)
-              | (rw [← this.2]; cases cfg.infeasibleEndTime <;> simp)
+            rw [← this.2]; cases cfg.infeasibleEndTime <;> simp
         | none =>
           by_cases hr : r = ""
           · simp [Trial.status, Trial.infeasible, stateOf, hr]
